@@ -81,7 +81,7 @@ def run(ctx):
     for which in ("pool", "manager"):
         rule, fi, outs = resend.analyse(ctx, which)
         sites = [s for s in rule.sites if s.kind == "resend"]
-        ctx.sites(R2, len({s.node.lineno for s in sites}), 3 if which == "pool" else 1, f"resend sites in {fi.qual}")
+        ctx.sites(R2, len({resend.resend_kind(s) for s in sites}), 3 if which == "pool" else 1, f"kinds of resend (redirect / status retry / error retry) in {fi.qual}")
         seen = set()
         for s in sites:
             r = s.args.get("retries")
@@ -614,9 +614,16 @@ def rule_r8(ctx):
             if isinstance(n, ast.ExceptHandler):
                 std_closes = std_closes or any(astq.call_text(c) in ("self.close", "response.close") for c in astq.calls(n))
     handlers = []
-    for n in astq.walk_fn(uo.node):
-        if isinstance(n, ast.Try) and any(astq.call_text(c) == "self._make_request" for s in n.body for c in astq.calls(s)):
-            handlers = n.handlers
+    # the request step and its handlers live in urlopen or in a private helper it delegates the exchange to
+    entry = uo
+    cands = [uo] + [m.funcs[q_] for q_ in sorted(helper_closure(m, [uo], stop=("_make_request", "_get_conn", "_put_conn", "_new_conn"))) if q_ != uo.qual and q_ in m.funcs]
+    for cand in cands:
+        for n in astq.walk_fn(cand.node):
+            if isinstance(n, ast.Try) and any(astq.call_text(c) == "self._make_request" for s in n.body for c in astq.calls(s)):
+                handlers = n.handlers
+                uo = cand
+        if handlers:
+            break
     conn_names = set(astq.assigned_from(uo.node, lambda v: isinstance(v, ast.Call) and astq.call_text(v) == "self._get_conn"))
     if not conn_names:
         raise AnalysisError("urlopen: local holding the leased connection not found")
@@ -662,8 +669,9 @@ def rule_r8(ctx):
                     continue
                 nn += 1
                 ok = not (hit and std_closes)
-                ctx.ob(R8, uo.qual, f"handler reads conn.{node.attr}", ok,
+                ctx.ob(R8, entry.qual, f"handler reads conn.{node.attr}", ok,
                        "" if ok else f"conn.{node.attr} is backed by {sorted(hit)}, which HTTPConnection.close() resets, and http.client closes the connection on getresponse() failures: "
                        "a reset while reading the response looks like 'never connected to the proxy' -> ProxyError -> category `other` -> a POST is sent twice", node=node)
+    uo = entry
     ctx.sites(R8, nn, 1, "connection-state reads in urlopen's error handler")
 
